@@ -103,6 +103,34 @@ class HarnessError(Exception):
     pass
 
 
+class CaseTimeout(BaseException):
+    """a single call of the code under test exceeded its wall-clock budget: inconclusive, never a violation"""
+
+
+class time_limit:
+    """with time_limit(30): ...   raises CaseTimeout in the (main thread of the) worker process"""
+
+    def __init__(self, seconds):
+        self.seconds = seconds
+
+    def _handler(self, signum, frame):
+        raise CaseTimeout()
+
+    def __enter__(self):
+        import signal
+
+        self._old = signal.signal(signal.SIGALRM, self._handler)
+        signal.setitimer(signal.ITIMER_REAL, self.seconds)
+        return self
+
+    def __exit__(self, *exc):
+        import signal
+
+        signal.setitimer(signal.ITIMER_REAL, 0)
+        signal.signal(signal.SIGALRM, self._old)
+        return False
+
+
 class _Found(Exception):
     pass
 
